@@ -234,6 +234,10 @@ fn machine(host: &mut Host, name: &str, op: &Value) -> Result<Option<Value>, Str
                 if let Some(m) = cfg.get("mirror").and_then(|x| x.as_bool()) {
                     rt.memory.set_internal_ram_mirror(m);
                 }
+                if cfg.get("por").and_then(|x| x.as_bool()) == Some(true) {
+                    // what the Python emulator's constructor does (reset_on_init=True)
+                    rt.power_on_reset();
+                }
                 if cfg.get("pce500_map").and_then(|x| x.as_bool()) == Some(true) {
                     sc62015_core::pce500::configure_pce500_memory_map(&mut rt.memory);
                 }
